@@ -250,7 +250,7 @@ func isPlainAddr(r *BlockRec, a common.Address) bool {
 func termRewardFromState(pre StateDump, height uint32) *big.Int {
 	// reward block height = term*TermDuration + Interim + 1 pays the term that just ended
 	term := (height-params.InterimDuration-1)/params.TermDuration - 1
-	raw := pre[params.TermRewardContract]["slot."+params.TermRewardContract.Hash().Hex()[:10]]
+	raw := pre[params.TermRewardContract][slotKey(params.TermRewardContract.Hash())]
 	if raw == "" {
 		return new(big.Int)
 	}
